@@ -9,7 +9,8 @@ Definition quick_digest (s : st) : list Z :=
   [zn (mcount s); zn (length (demes s)); zn (total_evals (demes s)); zn (count d_active (demes s))].
 Definition full_digest (s : st) : list Z :=
   zn (mcount s) :: flat_map (fun d => [zn (d_lvl d); match d_par d with Some p => zn (S p) | None => 0%Z end; zn (d_started d);
-                                       zb (d_active d); zb (d_hib d); zn (d_meta d); zn (d_evals d)]) (demes s).
+                                       zb (d_active d); zb (d_hib d); zn (d_meta d); zn (d_evals d)]) (demes s)
+  ++ (-4)%Z :: map (fun i => zn (last (did (demes s) i) 0)) (seq 0 (length (demes s))).
 Definition is_gsc (e : event) : bool := match e with EGsc _ => true | _ => false end.
 Definition at_boundary (s : st) : bool := match pc s with PMain => true | _ => false end.
 
